@@ -28,12 +28,12 @@ PROP = "C03"
 # bound = C[pred][solver] * eps_eff + FLOOR[pred];  eps_eff = max(scf_eps, effective SP2 tolerance)
 # calibrated on the unchanged tree (largest observed ratio is >= 10x below; see evidence "calibration")
 C = {
-    "tr": {0: 50, 1: 10, 2: 10},
-    "qsum": {0: 50, 1: 10, 2: 10},
-    "idem": {0: 50, 1: 10, 2: 10},
-    "comm": {0: 5.0e4, 1: 2.0e3, 2: 2.0e2},
-    "rediag": {0: 5.0e3, 1: 2.0e2, 2: 50},
-    "efun": {0: 10, 1: 10, 2: 10},
+    "tr": {0: 50, 1: 10, 2: 10, 3: 10},
+    "qsum": {0: 50, 1: 10, 2: 10, 3: 10},
+    "idem": {0: 50, 1: 10, 2: 10, 3: 10},
+    "comm": {0: 5.0e4, 1: 2.0e3, 2: 2.0e2, 3: 2.0e3},
+    "rediag": {0: 5.0e3, 1: 2.0e2, 2: 50, 3: 2.0e2},
+    "efun": {0: 10, 1: 10, 2: 10, 3: 10},
 }
 FLOOR = {"tr": 1e-9, "qsum": 1e-9, "idem": 1e-9, "comm": 1e-7, "rediag": 1e-8, "efun": 1e-8}
 SYM_ABS = 1e-12
@@ -71,6 +71,12 @@ def job_lattice(tier, rng):
                             if uhf:
                                 p["UHF"] = True
                             jobs.append(dict(mols=ms, params=p, start=st, cap=cap, pad_coord=0.0))
+    # Krylov (KSA) solver: its loop has no convergence-test hook, so these jobs are judged by the predicates at return only
+    ksa = []
+    for ms in (["h2o"], ["nh3", "h2o"], ["c2h4", "hf"], ["h2o", "oh-"], ["ch4", "co"]):
+        for rank in (2, 3):
+            for eps in (1e-7, 1e-10):
+                ksa.append(dict(mols=ms, params=dict(scf_converger=[3, {"max_rank": rank, "err_threshold": 0.0, "T_el": 1500.0}], sp2=[False, 1e-5], scf_eps=eps), start="guess", cap=None, pad_coord=0.0, no_trace=True))
     if tier == "quick":
         must = [j for j in jobs if (j["mols"] == ["h2o", "oh-"] and j["params"]["sp2"][0] and j["params"]["scf_eps"] == 1e-7 and j["start"] == "guess" and j["cap"] is None and j["params"]["scf_converger"] == [1])]
         must += [j for j in jobs if j["cap"] == 3 and j["mols"] in (["ch4", "h2"], ["h2o"]) and j["params"]["scf_converger"] in ([0, 0.3], [2]) and not j["params"]["sp2"][0]]
@@ -81,7 +87,9 @@ def job_lattice(tier, rng):
         # open shell, every solver that supports it, tightest threshold: density criteria must be live
         must += [j for j in jobs if j["mols"] in (["ch3"], ["ch2t"]) and j["params"]["scf_eps"] == 1e-10 and j["start"] in ("guess", "perturbed") and j["cap"] is None and j["params"]["scf_converger"] in ([1], [0, 0.3])]
         rest = [j for j in jobs if j not in must]
-        jobs = must + rng.sample(rest, 60)
+        jobs = must + rng.sample(rest, 60) + ksa[::2]
+    else:
+        jobs = jobs + ksa
     for n, j in enumerate(jobs):
         j["id"] = "j%05d" % n
     return jobs
@@ -174,7 +182,7 @@ def main(tier):
                 rep.machinery(f"job {j['id']} failed: {r.get('error')} {str(r.get('tb'))[-400:]}")
                 continue
             o = r["result"]
-            for t in o["traces"]:
+            for t in ([] if j.get("no_trace") else o["traces"]):
                 t["job"] = j["id"]
                 traces.append(t)
             if o["outcome"] == "budget":
